@@ -143,40 +143,41 @@ def format_oracle(ctx, dense, stride_n, max_idx, kinds=None, max_size=120000):
                 continue
             # load
             attempts(ctx, kind, sample, "load", lambda t: (lambda: kind.cls(t)), data, dense, stride_n, max_idx)
-            # growing save
-            try:
+            # growing save (a fresh object per attempt: not every loaded object can be deep-copied, e.g. FLAC cue sheets)
+            def mk_grow():
                 o = kind.open(io.BytesIO(data))
                 kind.ensure_tags(o)
                 add_value(kind, o, 9000)
-            except Exception:
-                continue
+                return o
             try:
-                exp, grown = canon_after(kind, data, lambda b: copy.deepcopy(o).save(b))
+                exp, grown = canon_after(kind, data, lambda b: mk_grow().save(b))
             except Exception:
+                ctx.count("fault:skipped-unsaveable")
                 continue
             _expect[(kname, sample, "save-grow")] = exp
-            attempts(ctx, kind, sample, "save-grow", lambda t: (lambda: copy.deepcopy(o).save(t)), data, dense, stride_n, max_idx)
+            attempts(ctx, kind, sample, "save-grow", lambda t: (lambda o=mk_grow(): o.save(t)), data, dense, stride_n, max_idx)
             # shrinking save (from the grown file)
-            try:
+            pk = {"padding": (lambda i: 0)} if kind.padding else {}
+
+            def mk_shrink():
                 o2 = kind.open(io.BytesIO(grown))
                 add_value(kind, o2, 3)
-                exp2, _ = canon_after(kind, grown, lambda b: copy.deepcopy(o2).save(b, **({"padding": (lambda i: 0)} if kind.padding else {})))
+                return o2
+            try:
+                exp2, _ = canon_after(kind, grown, lambda b: mk_shrink().save(b, **pk))
                 _expect[(kname, sample, "save-shrink")] = exp2
-                attempts(ctx, kind, sample, "save-shrink",
-                         lambda t: (lambda: copy.deepcopy(o2).save(t, **({"padding": (lambda i: 0)} if kind.padding else {}))), grown, dense, stride_n, max_idx)
+                attempts(ctx, kind, sample, "save-shrink", lambda t: (lambda o=mk_shrink(): o.save(t, **pk)), grown, dense, stride_n, max_idx)
             except mutagen.MutagenError:
                 pass
             # delete
             try:
-                o3 = kind.open(io.BytesIO(grown))
-                exp3, _ = canon_after(kind, grown, lambda b: copy.deepcopy(o3).delete(b))
+                exp3, _ = canon_after(kind, grown, lambda b: kind.open(io.BytesIO(grown)).delete(b))
                 if exp3 == []:
                     exp3 = None if kind.style in ("ape",) else exp3
                 _expect[(kname, sample, "delete")] = exp3
                 attempts(ctx, kind, sample, "delete", lambda t: (lambda: kind.open(io.BytesIO(grown)).delete(t)), grown, dense, stride_n, max_idx)
             except mutagen.MutagenError:
                 pass
-
 
 # ---------------------------------------------------------------- correspondence of the faulty file monad
 def run_model(ctx, fn, data, args, buf, fault, short):
